@@ -382,12 +382,14 @@ def mega_shape(draw):
 # ---------------------------------------------------------------------------------------------------
 # container types of list-like arguments (same elements, same order where order matters)
 
-def as_container(items, selector, ordered=True):
+def as_container(items, selector, ordered=True, array_like=False):
     """items as a list / tuple / ndarray / range (when an arithmetic progression of ints) / set / frozenset / deque /
     dict keys, chosen by an integer selector; unordered containers only when ``ordered`` is False"""
     import collections
     items = list(items)
-    forms = ["list", "tuple", "ndarray", "range", "deque", "dict_keys"] + ([] if ordered else ["set", "frozenset"])
+    # array_like parameters (numpy converts them): sequences only; membership-only parameters: any container
+    forms = ["list", "tuple", "ndarray", "range", "deque"] if array_like else \
+        ["list", "tuple", "ndarray", "range", "deque", "dict_keys"] + ([] if ordered else ["set", "frozenset"])
     f = forms[int(selector) % len(forms)]
     if f == "tuple":
         return tuple(items), f
